@@ -88,11 +88,16 @@ theorem sweep_disjoint_number_noNeg (sp : Nat → Bool) (src : Str) (ms : List M
     (numExtract sp src ms (fun _ => none) ambs).Pairwise Disjoint :=
   (sweep_disjoint_number sp src ms _ ambs (by intro s a b h; cases h) (by intro s a b h; cases h)).2
 
-/-- the widening is **not** safe by itself: a negative-term match that reaches over an earlier run makes two
-results overlap (`1 - 2` with a term regex that also swallows the `1`). -/
+/-- the widening is **not** safe by itself, and the shipped English/… extractors hit it: their negative-term
+regex is not anchored at the end of `source[0:start]`, so `regex.search` returns the **first** `minus ` of the
+prefix for every later number. `minus 5 and 6`: both numbers become `[0, 7)` = `minus 5`. -/
 theorem sweep_number_neg_counterexample :
-    ¬ (numExtract (fun c => c == 32) [49, 32, 45, 32, 50] [⟨0, 1, 0⟩, ⟨4, 1, 0⟩]
-        (fun s => if s == 4 then some (0, 4) else none) []).Pairwise Disjoint := by decide
+    let src : Str := [109, 105, 110, 117, 115, 32, 53, 32, 97, 110, 100, 32, 54]
+    let out := numExtract (fun c => c == 32) src [⟨6, 1, 0⟩, ⟨12, 1, 0⟩]
+      (fun s => if s == 6 || s == 12 then some (0, 6) else none) []
+    out.map (fun e => (e.start, e.len, e.text)) =
+      [(0, 7, [109, 105, 110, 117, 115, 32, 53]), (0, 7, [109, 105, 110, 117, 115, 32, 53])] ∧
+    ¬ out.Pairwise Disjoint := by decide
 
 /-- C12 `BasePercentageExtractor.extract`: for any number-extractor results, any dummy token and any matches
 on the masked string, the restored results are ordered and disjoint (the position map is monotone). -/
